@@ -19,6 +19,38 @@ func (x *Exec) libCall(st *State, q string, recv *Value, args []*Value, sig *typ
 	case strings.HasPrefix(q, "github.com/jimsnab/go-lane."):
 		// logging: effect-free on emulator state
 		return x.freshResults(st, sig, "lane"), true
+	case q == "error.Error":
+		// message text of an error value: effect-free
+		r := x.b.Fresh("errtext", StrSort)
+		x.assume(st, x.b.Le(x.b.Num(big.NewInt(0), is), x.strLen(r), true))
+		return []*Value{scalarV(res(0), r)}, true
+	case q == "fmt.Errorf" || q == "errors.New":
+		// a non-nil error value
+		ev := x.freshValue(res(0), "err")
+		x.assume(st, x.b.Lt(x.b.Int(0), ev.L["tag"], true))
+		return []*Value{ev}, true
+	case q == "encoding/gob.Decoder.Decode" || q == "encoding/json.Unmarshal":
+		// the pointee of the (last) argument is overwritten with an arbitrary
+		// well-formed value of its type; ghost bookkeeping comes from the
+		// contract of the function, if any (so: fall through)
+		if at != nil && len(at.Args) > 0 {
+			ae := at.Args[len(at.Args)-1]
+			if p, ok := x.eng.info.TypeOf(ae).Underlying().(*types.Pointer); ok {
+				x.noSafety++
+				ref := x.eval(st, ae).scalar()
+				x.noSafety--
+				nv := x.freshValue(p.Elem(), "decoded")
+				x.assumeWellFormed(st, nv)
+				if _, isS := p.Elem().Underlying().(*types.Struct); isS {
+					x.storeStruct(st, ref, p.Elem(), nv)
+				} else {
+					x.storeCell(st, ref, p.Elem(), nv)
+				}
+			} else {
+				x.havocHeap(st, "call "+q+" (non-pointer target)", nil)
+			}
+		}
+		return nil, false
 	case q == "math/bits.OnesCount8" || q == "math/bits.OnesCount64" || q == "math/bits.OnesCount32" || q == "math/bits.OnesCount":
 		v := args[0].scalar()
 		if v.Sort.Kind != SBV {
